@@ -1,8 +1,9 @@
 """C20 — archive creation is a pure function of its sources; reading modifies nothing"""
 import os
 import shutil
+import subprocess
 
-from framework import scale, CaseResult, text_points
+from framework import scale, CaseResult, text_points, REPO, PY
 from props import c01, c02
 from props.diskcommon import argv_sources, dmodel_outcome, ext_of, gen_sources, gen_third_party, model_srcs, run_disk, write_third_party
 from props.tapecommon import CaseDir, gen_content, gen_source_path, materialize, model_outcome, real_path_of, run_tool
@@ -10,7 +11,7 @@ from props.tapecommon import CaseDir, gen_content, gen_source_path, materialize,
 GEN_FILES = ["GenDisk", "GenTape"]
 RULE = ("source lists as in C01/C02 (tape and both disk flavours). The same ordered list of (catalogue name, kind, content) is presented in up to six ways: twice in a row, "
         "quiet and verbose, sources reached by cwd-relative paths, by absolute paths, from directories whose names contain dots, target absent or present with arbitrary old "
-        "bytes (shorter, equal, longer than an archive). Oracle on the real files: all the archives are byte-identical; every source file is byte-identical after every action; "
+        "bytes (shorter, equal, longer than an archive), and again as three separate processes (python -m <tool>) under other string-hash seeds and time zones. Oracle on the real files: all the archives are byte-identical; every source file is byte-identical after every action; "
         "list and extract (run twice) leave the archive byte-identical and never open it for writing - also on archives the tools did not write (independent writer, 1/2/4 sides, non-FF .sd padding, trailing bytes, bit flips, whether the tool reports or refuses). One variant is also compared with the extracted model. "
         "signature = (medium, n sources, flags {abs, dotted, old-target, verbose, eos}); non-trivial = at least one data-bearing source")
 ASSUMPTIONS = ["purity with respect to the environment (clock, locale, hash seed) is observed on repeated real runs, not proved; the byte-level dependence on the sources alone is the theorem"]
@@ -60,6 +61,11 @@ def gen_cases(rng, tier):
         if fd_ is not None:
             c_["is_fd"] = fd_
         cases.append(c_)
+    # the documented special names under every spelling of the ',a' option: one rule applies, always the same
+    for is_fd in (True, False):
+        cases.append({"medium": "disk", "is_fd": is_fd, "old": None, "sources": [{"arg": a, "content": {"pat": "31302050520d0a", "len": 30 + k}} for k, a in enumerate(["menu.bas", "auto.bat,a", "tools.bin"])]})
+        cases.append({"medium": "disk", "is_fd": is_fd, "old": None, "sources": [{"arg": a, "content": {"pat": "31302050520d0a", "len": 30 + k}} for k, a in enumerate(["AUTO.BAT,A", "--eos", "auto.bat", "--eos", "list.bas,a", "note.txt,a", "bin.bin,A"])]})
+    cases.append({"medium": "tape", "old": None, "sources": [{"arg": a, "content": {"pat": "31302050520d0a", "len": 30 + k}} for k, a in enumerate(["auto.bat", "list.bas,a", "d.csv", "x.bin"])]})
     twice = [{"arg": "x.bin", "content": {"pat": "41", "len": 300}}, {"arg": "y.bas", "content": {"pat": "42", "len": 10}}, {"arg": "x.bin", "content": {"pat": "41", "len": 300}}]
     cases.append({"medium": "tape", "sources": twice, "old": None})
     cases.append({"medium": "disk", "is_fd": True, "sources": twice, "old": None})
@@ -68,6 +74,21 @@ def gen_cases(rng, tier):
     cases.append({"medium": "disk", "is_fd": True, "sources": [{"arg": "b.bin", "content": {"pat": "42", "len": 300}}], "old": 1400000})
     cases.append({"medium": "disk", "is_fd": False, "sources": [{"arg": "b.bin", "content": {"pat": "42", "len": 300}}], "old": 2700000})
     return cases, {"random": n, "foreign archives read (non-FF padding, trailing bytes, flips)": nr, "fixed": 3}
+
+
+# "repeated runs" of a command are separate processes: each one starts with its own string-hash randomisation and may see another time zone
+PROCESS_ENVS = [("1", "UTC"), ("2", "Asia/Tokyo"), ("random", "America/Lima")]
+
+
+def real_create(tape, is_fd, arch, args, cwd, hashseed, tz):
+    env = dict(os.environ, PYTHONPATH=os.path.join(REPO, "src"), PYTHONHASHSEED=hashseed, TZ=tz, PYTHONDONTWRITEBYTECODE="1", PYTHONUTF8="1")
+    tool = "moto_tar" if tape else ("moto_fdar" if is_fd else "moto_sdar")
+    argv = ["-c", arch] + ([] if tape else ["--"]) + args
+    try:
+        p = subprocess.run([PY, "-m", tool] + argv, cwd=cwd, stdout=subprocess.PIPE, stderr=subprocess.PIPE, env=env, timeout=120)
+        return p.returncode, p.stderr.decode("utf-8", "replace")[-300:]
+    except subprocess.TimeoutExpired:
+        return "timeout", ""
 
 
 VARIANTS = [("rel", "", False), ("rel-verbose", "", True), ("dotted", "d.ot/x.y/", False), ("abs", "ABS", True), ("again", "", False), ("elsewhere", "", False), ("mixed", "MIX", True)]
@@ -140,6 +161,7 @@ def run_case(case, ctx):
         archives = {}
         dis = bad = None
         src_bytes = {}
+        rel_args = None
         for vname, prefix, verbose in VARIANTS:
             pre = os.path.join(cd.root, "absdir") + "/" if prefix == "ABS" else prefix
             args = []
@@ -165,6 +187,8 @@ def run_case(case, ctx):
                 args.append(arg)
                 fs.append([text_points(rp), data])
             arch = f"out_{vname}{ext}"
+            if vname == "rel":
+                rel_args = list(args)
             if vname == "elsewhere":
                 # the archive in another directory, which holds files named like the (bare) sources but with other bytes: they are not sources
                 arch = "arc.d/" + arch
@@ -199,6 +223,15 @@ def run_case(case, ctx):
                     got = m["effects"][0][1] if m["effects"] else None
                 if got != archives[vname]:
                     dis = {"model archive differs from the tool's in variant": vname}
+        if bad is None and rel_args is not None:
+            # the same command again as separate processes, the way a user repeats it: other string-hash seeds, another time zone
+            for hs, tz in (PROCESS_ENVS if case.get("procs", True) else []):
+                arch = f"out_proc_{hs}{ext}"
+                st, err = real_create(tape, is_fd, arch, rel_args, cd.cwd, hs, tz)
+                if st != 0:
+                    bad = {"create failed as a separate process": [st, err], "hashseed": hs}
+                    break
+                archives["process, PYTHONHASHSEED=%s TZ=%s" % (hs, tz)] = cd.get(arch)
         if bad is None:
             ref = archives["rel"]
             for k, v in archives.items():
